@@ -13,7 +13,7 @@ import (
 func init() {
 	register(&Property{
 		ID:      "C13",
-		Explain: "FOLD: wsflate.MessageState.SetBits / UnsetBits and the helpers SetBit, UnsetBit, IsCompressed are evaluated over Rsv(0..7) x OpCode(0..15) x compressed and compared with the RFC 7692 section 6 table: RSV1 is set iff first data frame of a compressed message, never on continuation or control frames; on receipt the state is updated only by a first data frame, RSV1 elsewhere is a protocol error, RSV2/RSV3 and all other header fields pass through. ws.Rsv / RsvBits / Rsv1..3 are folded against the bit layout. Wiring: the fragmenting writer's two emission paths apply every SendExtension to the header they then write (shared with C06), and Reader.NextFrame applies every RecvExtension after the header check and aborts on error before the payload reader is installed (shared with C05). Which frame is the first of a message is decided by the writer's fseq, so the Reset/ResetOp field tables (C18.writer-reset) are part of this check. protocol-error-kind: ErrUnexpectedCompressionBit is a ws.ProtocolError. The suffixed reader fold (C12) and the writer method tables are part of this check. The whole wsflate writer / reader plumbing (tail constants, cbuf, writer tail check, helpers, resets) is part of this check. Discard and Read tables run here: RSV1 on a later fragment of a message that is being skipped surfaces from Discard.",
+		Explain: "FOLD: wsflate.MessageState.SetBits / UnsetBits and the helpers SetBit, UnsetBit, IsCompressed are evaluated over Rsv(0..7) x OpCode(0..15) x compressed and compared with the RFC 7692 section 6 table: RSV1 is set iff first data frame of a compressed message, never on continuation or control frames; on receipt the state is updated only by a first data frame, RSV1 elsewhere is a protocol error, RSV2/RSV3 and all other header fields pass through. ws.Rsv / RsvBits / Rsv1..3 are folded against the bit layout. Wiring: the fragmenting writer's two emission paths apply every SendExtension to the header they then write (shared with C06), and Reader.NextFrame applies every RecvExtension after the header check and aborts on error before the payload reader is installed (shared with C05). Which frame is the first of a message is decided by the writer's fseq, so the Reset/ResetOp field tables (C18.writer-reset) are part of this check. protocol-error-kind: ErrUnexpectedCompressionBit is a ws.ProtocolError. The suffixed reader fold (C12) and the writer method tables are part of this check. The whole wsflate writer / reader plumbing (tail constants, cbuf, writer tail check, helpers, resets) is part of this check. Discard and Read tables run here: RSV1 on a later fragment of a message that is being skipped surfaces from Discard. The reader's own header decoder (decode-table) and the helper-siblings rule of C12 run here: the RSV bits the extension sees are the ones on the wire, and DecompressFrame refuses what DecompressFrameBuffer refuses.",
 		Trusted: []string{"go/ssa + go/types", "the checker's abstract evaluator"},
 		Assume:  []string{"Rsv <= 7, OpCode <= 15"},
 		Run:     runC13,
